@@ -5,6 +5,8 @@ import Autd3.Drv.Common
 ```
 consts                       the constants the model uses (the harness prints the crates' values)
 case <ndev> <dg>             one `Controller::send` over a recording link
+casem <ndev> <mask> <dg>     the same with an enable mask (`0`/`1` per device, device 0 first)
+note <text>                  an implementation-only oracle case ran here (answer: ok)
 <dg>   ::= <d1> | pair <d1> | <d1>
 <d1>   ::= mod <len> <sc> <seg> <tr>
          | foci <N> <size> <stmc> <seg> <tr> <x>:<y>:<z> {<i>.<j>=<x>:<y>:<z>}      hex binary32 patterns
@@ -184,6 +186,14 @@ def step (st : St) (line : String) : St × String :=
       | some d => (st, showOutcome (send numTr d))
       | none => (st, "bad-op")
     else (st, "bad-op")
+  | "casem" :: nd :: mask :: rest =>
+    -- enable mask: one character per device, device 0 first (`1` = enabled)
+    if (nd = "1" ∨ nd = "2") ∧ some mask.length = nd.toNat? ∧ mask.toList.all (fun c => c = '0' ∨ c = '1') then
+      match parseDg rest with
+      | some d => (st, showOutcome (sendMasked numTr (mask.toList.any (· = '1')) d))
+      | none => (st, "bad-op")
+    else (st, "bad-op")
+  | "note" :: _ => (st, "ok")
   | _ => (st, "bad-op")
 
 end Autd3.Drv.C05
